@@ -26,6 +26,15 @@ def register(R):
                    loops={0: Loop(lambda c, L: [], mod_locals=['child'], mod_fields=['_priority'])},
                    note='frame: only priorities are written'))
 
+    W = ('_priority', '_delete', '_safe', '_implicit_safe', '_default_safe', '_metadata')
+    for fn in ('_replace_self', '_replace_other'):
+        R.add(Contract(N + 'ConfigNode.' + fn, [P.node('self', 'ConfigNode'), P.node('other', 'ConfigNode'), P.const('allow_promotions', False)], name='frame-no-promotion',
+                       requires=lambda c: [('valid', z3.And(S.valid_flags(c.pre, c.ref('self')), S.valid_flags(c.pre, c.ref('other'))))],
+                       modifies=lambda c: [(f, [c.ref('self')]) for f in W] + [(f, 'all') for f in S.IMPLICIT],
+                       ensures=[('result-is-self', lambda c: c.rt == c['self'])], result=lambda c, it: c.a['self'], props=('C13', 'C17'),
+                       opts={'callee': False, 'use': USE_FRAMES, 'no_search': True, 'assume_children_are_objects': True},
+                       note='frame: without promotion only the flag fields and metadata of the receiver (and implicit flags below it) are written; the receiver is returned'))
+
     # adoption, frame only (one verification instance per keyword shape)
     def make(shape, keys):
         def setup(it, fr, sc):
